@@ -159,6 +159,44 @@ def main(inp, outp):
             txt = ccsds.dumps(eph)
             back = ccsds.loads(txt)
             return "ccsds", ([cart(x) for x in back], [instant(x.date) for x in back], [x.date.scale.name for x in back])
+        if op == "maneuver":
+            # maneuver dates carried under the argument label, orbit epoch under the epoch label: numerical propagation through an
+            # impulse and a continuous burn
+            from beyond.orbits.man import ImpulsiveMan, ContinuousMan
+            outs = []
+            for (l_e, l_a) in ((le, la), ("UTC", "UTC")):
+                o = kep_orbit(l_e, KeplerNum(timedelta(seconds=60), get_body("Earth"))).copy(form="cartesian")
+                o.maneuvers = [ImpulsiveMan(lab(EPOCH + timedelta(minutes=10, seconds=7), l_a), [1.5, 0.0, -0.5], frame="TNW"),
+                               ContinuousMan(lab(EPOCH + timedelta(minutes=25), l_a), timedelta(minutes=6), dv=[0.0, 2.0, 0.0], frame="QSW")]
+                outs.append(cart(o.propagate(lab(EPOCH + timedelta(minutes=47), l_a))))
+            return "pairs", ([outs[0]], [outs[1]])
+        if op == "visibility":
+            o = kep_orbit(le, "Kepler")
+            out = []
+            for p in station.visibility(o, start=lab(EPOCH + timedelta(minutes=3), la), stop=timedelta(hours=14), step=timedelta(minutes=2), events=True):
+                if p.event is not None:
+                    out.append((p.event.info, instant(p.date)))
+            return "events", out
+        if op == "measure":
+            from beyond.utils.measures import Range, Azimut, Elevation, Doppler
+            orb = kep_orbit(le, "Kepler").propagate(arg)
+            ms = [cls([station, "sat", station], orb.date, 0.0).from_orbit(orb) for cls in (Range, Azimut, Elevation, Doppler)]
+            v = np.array([ms[0].value, ms[1].value * 1e6, ms[2].value * 1e6, ms[3].value, 0.0, 0.0])
+            return "state+date", (v, instant(ms[0].date))
+        if op == "lambert":
+            from beyond.utils.lambert import lambert
+            o0 = kep_orbit(le, "Kepler")
+            o1 = o0.propagate(lab(EPOCH + timedelta(minutes=31, seconds=3.25), la))
+            s0, s1 = lambert(o0.copy(form="cartesian"), o1.copy(form="cartesian"))
+            return "state", np.concatenate([np.asarray(s0, float)[3:], np.asarray(s1, float)[3:]])
+        if op == "ltan":
+            from beyond.utils.ltan import orb2ltan
+            o = kep_orbit(le, "Kepler").propagate(arg)
+            return "state", np.array([float(orb2ltan(o)), float(orb2ltan(o, "true")), 0.0, 1.0, 0.0, 0.0])
+        if op == "beta":
+            from beyond.utils.beta import beta
+            o = kep_orbit(le, "Kepler").propagate(arg)
+            return "state", np.array([float(beta(o)) * 1e3, float(beta(o, "Moon")) * 1e3, 0.0, 1.0, 0.0, 0.0])      # milliradians: tolerance 5e-8 rad, a mishandled label moves the Sun by 4e-6 rad
         raise ValueError(op)
 
     def dt_inst(a, b):
@@ -186,7 +224,7 @@ def main(inp, outp):
             vmag = max(np.linalg.norm(ref[3:6]), 1.0)
             # dates built in different scales differ by rounding at the microsecond level; operations going through float
             # Julian dates (frame chains, Sun/Moon series) resolve time to ~40 us only (the library's time resolution)
-            tol = vmag * (50e-6 if op in ("sun", "moon", "frame", "sgp4", "sgp4beta", "sgp4-newyear") else 3e-6) + 1e-6
+            tol = vmag * (50e-6 if op in ("sun", "moon", "frame", "sgp4", "sgp4beta", "sgp4-newyear", "beta", "ltan") else 3e-6) + 1e-6
             err = float(np.abs(got - ref).max())
             clause(f"{op}: same physical result whatever the labels (|v| x 3 us)", err <= tol, f"scale/{op}",
                    f"{op} la={la} le={le}: differs from the UTC/UTC result by {err:.6g} (tolerance {tol:.3g})", data)
@@ -198,7 +236,7 @@ def main(inp, outp):
                    f"{op} la={la} le={le}: differs from the all-UTC computation at the same instant by {err:.6g}", data)
         elif kind == "state+date":
             err = float(np.abs(got[0] - ref[0]).max())
-            clause(f"{op}: same physical result whatever the labels", err <= 1e-6 and abs(dt_inst(got[1], ref[1])) <= 3e-6, f"scale/{op}",
+            clause(f"{op}: same physical result whatever the labels", err <= (0.4 if op == "measure" else 1e-6) and abs(dt_inst(got[1], ref[1])) <= 3e-6, f"scale/{op}",
                    f"{op} la={la} le={le}: state differs by {err:.3g}, date by {dt_inst(got[1], ref[1]):.3g} s", data)
         elif kind == "events":
             same = len(got) == len(ref) and all(a[0] == b[0] and abs(dt_inst(a[1], b[1])) <= 1e-4 for a, b in zip(got, ref))
